@@ -121,14 +121,24 @@ def claim_depth(which):
             dend = K.depth_of(cx, st).e
 
             def on_drift(m):
-                # 140 over-deep items on ONE parser: every limit error must leave the counter as it found it
-                text = (b"(" * 130 + b" ") * 140
-                nat = RP.parse(text, "default", "slice", "valuec" if which == "next_value" else "datumc", fast=True, timeout=120)
-                res.replays += 1
-                bad = "crash" in nat
-                return {"replayed": bad, "witness": {"kind": "parse", "input_hex": text.hex(), "opts": "default",
-                                                     "src": "slice", "api": "valuec", "fast": True},
-                        "observed": str(nat)[:300]}
+                # call history on ONE parser: 140 failing items of some shape, then a well-formed 100-level datum,
+                # which must still be accepted (and nothing may crash)
+                api = "valuec" if which == "next_value" else "datumc"
+                good = b"(" * 100 + b"x" + b")" * 100
+                last = None
+                for bad in (b"(" * 130 + b" ", b"'#z ", b"`#z ", b",@#z ", b"#(" * 130 + b" ", b"'(" * 70 + b" ", b"') ", b"(1 . ') "):
+                    text = bad * 140 + b" " + good
+                    nat = RP.parse(text, "default", "slice", api, fast=True, timeout=120)
+                    res.replays += 1
+                    last = nat
+                    broken = "crash" in nat or not nat.get("trace", "").endswith("o") or \
+                        "recursion limit" in nat.get("last_err", "") and nat.get("trace", "e")[-1] != "o"
+                    if broken:
+                        return {"replayed": True, "witness": {"kind": "parse", "input_hex": text.hex(), "opts": "default",
+                                                              "src": "slice", "api": api, "fast": True,
+                                                              "expect": {"trace_endswith": "o"}},
+                                "observed": str(nat)[:300]}
+                return {"replayed": False, "observed": str(last)[:300]}
             res.must_be_unsat(pc + [dend != d0], "%s: a return path leaves remaining_depth changed (drifts towards 0 - 1)" % which, on_drift)
             for ev in st.events:
                 if ev[0] != "call" or len(ev) < 5:
